@@ -194,7 +194,7 @@ def make_eval(exe):
                     bad = None
                     if r.rc != 1:
                         bad = "standard error is unwritable (%s) and a warning is due: exit status %s, expected 1" % (se, r.rc)
-                    elif snapshot_dir(td) != before:
+                    elif _without_forced(snapshot_dir(td), c) != _without_forced(before, c):
                         bad = "standard error is unwritable (%s) and a warning is due: the directory changed: %s -> %s" % (
                             se, sorted(before), sorted(snapshot_dir(td)))
                     elif r.out:
@@ -236,6 +236,15 @@ def snapshot_dir(td):
         else:
             snap[n] = (s.st_ino, stat.S_IFMT(s.st_mode))
     return snap
+
+
+def _without_forced(snap, c):
+    """With -f lbzip2 removes an existing output file before it creates the new one (documented), so a run that fails
+    afterwards has legitimately lost it: leave that name out of the comparison."""
+    if not c["f"]:
+        return snap
+    outs = {o["out"] for o in c["ops"]}
+    return {k: v for k, v in snap.items() if k not in outs}
 
 
 def run_unwritable_stderr(argv, td, how):
